@@ -57,7 +57,7 @@ package executor
 // C03: a document is only ever stored in the cache after validator.Validate returned no error for *that* document
 // and under the key it was parsed from; what is returned without errors is either such a cache entry or the document
 // just parsed and validated. C07: the cache key is the query text and nothing else (no request parameters in scope).
-//@ func (*Executor).parseQuery [C03,C07,C09]
+//@ func (*Executor).parseQuery [C03,C07,C09,C15]
 //@   requires e != nil && stats != nil
 //@   safe
 //@   modifies Stats.Parsing Stats.Validation Error.Extensions maps
@@ -74,14 +74,14 @@ package executor
 // C03: no error list  ==>  every parameter mutator and every context mutator returned nil, the document was parsed
 // from the (possibly mutated) query text and validated, the operation was found by name, variables coerced.
 // An error list is never empty. (Refines the interface contract in graphql/verif_contracts.go.)
-//@ func (*Executor).CreateOperationContext [C03,C09,C02]
+//@ func (*Executor).CreateOperationContext [C03,C09,C02,C14,C15]
 //@   requires e != nil && params != nil
 //@   safe
 //@   ghost rejected = false
 //@   ghost coerceFailed = false
 //@   at `p.MutateOperationParameters(ctx, params)` requires arg1 == params
 //@   at `p.MutateOperationParameters(ctx, params)` ghost rejected = rejected || callres0 != nil
-//@   at `p.MutateOperationContext(ctx, opCtx)` requires arg1 == opCtx
+//@   at `p.MutateOperationContext(ctx, opCtx)` requires arg1 == opCtx && calls(VariableValues) == 1 && !coerceFailed
 //@   at `p.MutateOperationContext(ctx, opCtx)` ghost rejected = rejected || callres0 != nil
 //@   at `e.parseQuery(ctx, &opCtx.Stats, params.Query)` requires arg2 == params.Query
 //@   at `opCtx.Doc.Operations.ForName(params.OperationName)` requires arg0 == opCtx.OperationName
